@@ -72,6 +72,10 @@ class BasePose(np.ndarray):
             Whether the two poses are equal
 
         """
+        # Poses of different types are never equal (even if their arrays happen to contain the same numbers)
+        if type(self) is not type(other):
+            return False
+
         return np.linalg.norm(self.to_array() - other.to_array()) / max(np.linalg.norm(self.to_array()), tol) < tol
 
     # ======================================================================= #
